@@ -303,6 +303,12 @@ def run_check(pid, tier, seed, jobs, limit=None):
     for s, why, err in shard_fail[:3]:
         print("SHARD-FAILURE shard %d: %s\n%s" % (s, why, err))
     if new_viol:
+        sigs = {}
+        for idx, v in new_viol:
+            sg = dumps(v.get("key", {}), sort_keys=True)
+            sigs[sg] = sigs.get(sg, 0) + 1
+        for sg, cnt in sorted(sigs.items(), key=lambda kv: -kv[1])[:25]:
+            print("  viol-key x%-5d %s" % (cnt, sg))
         shown = set()
         for idx, v in new_viol:
             path = write_replay(pid, cases[idx], v)
